@@ -73,7 +73,7 @@ func checkC20(p *Program, r *Report) {
 	}
 	// helpers (no record): findings inside them concern values they read themselves (Index, MapIndex …)
 	for _, fn := range m.fns {
-		if m.baseOf(fn) != nil || fn.Name() == "init" {
+		if m.baseOf(fn) != nil || strings.HasPrefix(fn.Name(), "init") {
 			continue
 		}
 		fl := &kindFlow{a: ka, fn: fn, base: nil, wrapP: -1, finds: map[string]kindFinding{}}
